@@ -32,6 +32,9 @@ type PeerSpec struct {
 	// StallAt/StallFor: stall delivery towards the SUT.
 	StallAt  time.Duration `json:"stall_at,omitempty"`
 	StallFor time.Duration `json:"stall_for,omitempty"`
+	// Stays: not shut down when faults stop (a peer that is merely silent, choking or slow is
+	// part of the steady state the download must cope with).
+	Stays bool `json:"stays,omitempty"`
 	// Via: how the SUT learns the address in listen mode: "manual" (AddPeer), "tracker", "pex", "none".
 	Via string `json:"via,omitempty"`
 }
@@ -241,6 +244,8 @@ type WebseedSpec struct {
 	Honest bool    `json:"honest,omitempty"`
 	// FaultUntil: faults only before this fake time (0 = forever).
 	FaultUntil time.Duration `json:"fault_until,omitempty"`
+	// DelayMax: every response is held back for up to this long (a slow but honest server).
+	DelayMax time.Duration `json:"delay_max,omitempty"`
 }
 
 type RangeReq struct {
@@ -342,6 +347,16 @@ func (w *WebseedActor) handle(rw http.ResponseWriter, r *http.Request) {
 	w.Reqs = append(w.Reqs, RangeReq{At: simrt.Now(), Path: r.URL.Path, Begin: begin, End: end, File: fi})
 	w.mu.Unlock()
 	simrt.Logf("webseed %s: GET %s %d-%d faulty=%v", w.Spec.Name, r.URL.Path, begin, end, faulty)
+	if w.Spec.DelayMax > 0 {
+		w.mu.Lock()
+		d := w.rng.Dur(0, w.Spec.DelayMax)
+		w.mu.Unlock()
+		select {
+		case <-time.After(d):
+		case <-r.Context().Done():
+			return
+		}
+	}
 	body := append([]byte(nil), data[begin:end+1]...)
 	if faulty {
 		simrt.Count("fault.webseed."+w.Spec.Mode, 1)
